@@ -87,6 +87,47 @@ def case_ctor(R, D, diag, give):
             check_density(m, fails, m.condition_on_x(c, xb), "condition_on_x", params)
         W = rng.standard_normal((R, max(1, D - 1), D))
         check_density(m, fails, m.linear_sum(p.reg, W), "get_density_of_linear_sum", params)
+        # update(idx, d): the object is still presented as a density, every component must still integrate to one
+        K = min(2, R)
+        uidx = rng.permutation(R)[:K]
+        d = mk_pdf(m, rng, K, D, diag=diag, scale=2.0)
+        m.query("log_integral", p.reg)            # fill the caches of the object that is updated in place
+        m.update(p.reg, uidx, d.reg)
+        check_density(m, fails, p.reg, "update", dict(params, uidx=[int(i) for i in uidx]))
+        r = m.integrate(p.reg, "x")
+        mu_exp = p.mu.copy(); mu_exp[uidx] = d.mu
+        fail_if(fails, PROPERTY, "update", "mean (integrate('x')) after update() is not the mean of the addressed/new components",
+                np.asarray(m.regs[r]), mu_exp, params=params)
+        return fails
+    return Case(label, fn)
+
+
+def case_highdim(D, scale):
+    """diagonal densities of high dimension with uniformly small / large variances: well conditioned (condition number 4),
+    but det Sigma itself is far outside the float64 range, the log-determinant is not (C02 quantifies over all D)"""
+    label = f"highdim/diag/D{D}/scale{scale:g}"
+    def fn(m):
+        rng = gen.rng_path(m.seed, label)
+        fails = []
+        R = 2
+        var = scale * rng.uniform(0.5, 2.0, (R, D))
+        S = np.stack([np.diag(v) for v in var]); mu = gen.vec_batch(rng, R, D, 1.0) * np.sqrt(scale)
+        params = dict(R=R, D=D, diag=True, scale=scale)
+        ld = np.sum(np.log(var), axis=1)
+        for give, kw in ((0, {}), (1, dict(Lambda=np.stack([np.diag(1.0 / v) for v in var])))):
+            reg = m.pdf(R, D, S, mu, diag=True, **kw)
+            o = m.regs.get(reg)
+            if o is None:
+                fails.append(failure(PROPERTY, f"GaussianDiagPDF(give={give})", f"raised: {m.impl[-1][1:]}", params=params)); continue
+            fail_if(fails, PROPERTY, f"GaussianDiagPDF(give={give}):ln_det_Sigma", "ln det Sigma != sum of the log variances",
+                    np.asarray(o.ln_det_Sigma), ld, params=params)
+            x = mu[0][None] + np.sqrt(var[0])[None] * rng.standard_normal((2, D))
+            ev = np.asarray(m.regs[m.evalln(reg, m.arr(x))])
+            exp = np.stack([-0.5 * (np.sum((x - mu[r]) ** 2 / var[r], axis=1) + D * LOG2PI + ld[r]) for r in range(R)])
+            fail_if(fails, PROPERTY, f"GaussianDiagPDF(give={give})", "density value != N(x; mu, Sigma)", ev, exp, params=params)
+            r = m.query("log_integral", reg)
+            fail_if(fails, PROPERTY, f"GaussianDiagPDF(give={give}):log_integral", "log_integral() of a density != 0",
+                    np.asarray(m.regs[r]), np.zeros(R), params=params, signed_dev=True)
         return fails
     return Case(label, fn)
 
@@ -122,4 +163,6 @@ def cases(seed, tier):
             out.append(case_ctor(R, D, bool((i + give) % 2), give))
     for s in shape_grid(seed, "C02t", tier)[:8 if tier == "quick" else None]:
         out.append(case_transform(*s))
+    for D, scale in [(96, 1e-4), (96, 1e4)] + ([] if tier == "quick" else [(160, 1e-3), (48, 1e-8), (128, 1e3)]):
+        out.append(case_highdim(D, scale))
     return seeded(out, seed)
